@@ -37,6 +37,8 @@ func main() {
 	switch os.Args[1] {
 	case "check":
 		os.Exit(cmdCheck(os.Args[2:]))
+	case "ssa":
+		os.Exit(cmdSSA(os.Args[2:]))
 	case "replay":
 		os.Exit(cmdReplay(os.Args[2:]))
 	default:
@@ -275,7 +277,7 @@ func runProperty(o *Options, pc *PropertyConfig) int {
 			cross := o.Tier == "thorough"
 			to := timeoutMs
 			if j.ob.Kind == "vacuity" {
-				to = 10000
+				to = 4000
 				cross = false
 			}
 			j.ob.Result = solve(smtDir, name, j.ob.Query, vals, to, cross)
